@@ -1,3 +1,24 @@
-From Asynq Require Import Machine.
-Theorem C20_placeholder : True. Proof. exact I. Qed.
-Print Assumptions C20_placeholder.
+(* C20 — debug / dump / profiling options never change behaviour.
+   In the model the only options that touch control or data are KEEP_DEPENDENCIES (p_keep) and, for
+   the runaway guard, MAX_TASK_STACK_SIZE; every DUMP_* flag and COLLECT_PERF_STATS are diagnostic
+   output only - that they are inert in the real code is what the option-variant runs of the check
+   establish.  Proved here (corollary of C01): for tree programs the outcome of value() is the same
+   under ANY two parameter sets - KEEP_DEPENDENCIES on or off, any flush oracle, any priorities -
+   namely the sequential value.  The trace-level statement (same flushes, same context events) is
+   not proved; it rests on the correspondence. *)
+From Asynq Require Import Machine Seq proofs.MachineC08 proofs.MachineC01.
+
+Theorem C20_outcome_independent_of_options_tree : forall P P' p n n' o o',
+  pointwise P -> pointwise P' -> tree p ->
+  let h := fst (create [] (FTask p) (st0 P)) in
+  let s1 := snd (create [] (FTask p) (st0 P)) in
+  let h' := fst (create [] (FTask p) (st0 P')) in
+  let s1' := snd (create [] (FTask p) (st0 P')) in
+  no_unwind P n (start h s1) -> c_mode (run P n (start h s1)) = MDone o ->
+  no_unwind P' n' (start h' s1') -> c_mode (run P' n' (start h' s1')) = MDone o' ->
+  o = o'.
+Proof.
+  intros P P' p n n' o o' HP HP' Ht. cbn zeta. intros Hn Hm Hn' Hm'.
+  rewrite (async_eq_seq_tree P p n o HP Ht Hn Hm), (async_eq_seq_tree P' p n' o' HP' Ht Hn' Hm'). reflexivity.
+Qed.
+Print Assumptions C20_outcome_independent_of_options_tree.
